@@ -127,6 +127,9 @@ def body(ctx, conv, nk, positive, order, dpos, two_depths, via, holes):
             cv = {'cf1d': CFGrid1D, 'shoc_standard': ShocStandard, 'ugrid': UGrid}[conv](ds)
             ctx.check({str(c.name) for c in cv.depth_coordinates} == set(depth_names), 'every depth coordinate of the dataset is found')
             out = cv.ocean_floor()
+        elif via == 'iterator':
+            # any iterable of coordinate names will do, also one that can be read only once
+            out = depth_ops.ocean_floor(ds, (n for n in depth_names), non_spatial_variables=['time'])
         else:
             out = depth_ops.ocean_floor(ds, depth_names, non_spatial_variables=['time'])
 
@@ -202,6 +205,10 @@ def cases(tier):
             continue
         yield Case(f'{conv}:{positive}:deep_first:dpos1:nk2:two{two if isinstance(two, str) else int(two)}:holes0:convention', body,
                    dict(conv=conv, nk=2, positive=positive, order='deep_first', dpos=1, two_depths=two, via='convention', holes=False),
+                   patches=depthcommon.patches, max_paths=20000, split=16)
+    for conv, two in (('plain', False), ('cf1d', True)):
+        yield Case(f'{conv}:down:shallow_first:dpos0:nk2:two{int(two)}:holes0:iterator', body,
+                   dict(conv=conv, nk=2, positive='down', order='shallow_first', dpos=0, two_depths=two, via='iterator', holes=False),
                    patches=depthcommon.patches, max_paths=20000, split=16)
     yield Case('plain:DOWN:shallow_first:dpos0:nk3:two0:holes0', body,
                dict(conv='plain', nk=3, positive='DOWN', order='shallow_first', dpos=0, two_depths=False, via='function', holes=False),
